@@ -50,7 +50,9 @@ def drop_candidates(node):
         out.append(node[1])
         for c in drop_candidates(node[1]):
             out.append((op, c) + tuple(node[2:]))
-    else:  # binary
+    else:  # binary: either operand alone, then reductions inside the operands
+        out.append(node[1])
+        out.append(node[2])
         for c in drop_candidates(node[1]):
             out.append((op, c, node[2]) + tuple(node[3:]))
         for c in drop_candidates(node[2]):
